@@ -618,4 +618,12 @@ func rulesC13(e *Engine, r *Report) {
 		}
 		r.Min("R13.14", "accounting steps in Encoder.Read", n, 2)
 	}
+	// ---------------------------------------------------------------- R13.15
+	r.Rule("R13.15", "a body without a declared length is a body: hasRequestBody admits ContentLength != 0 (a streamed payload has -1 over HTTP/2 and HTTP/3, where there is no Transfer-Encoding to fall back on) - `> 0` refuses every payload that does not travel over HTTP/1.1")
+	if fn := needFn(e, r, "R13.15", "http.hasRequestBody"); fn != nil {
+		ok := len(e.ifEdges(fn, "(p0.ContentLength != 0)")) > 0 || len(e.ifEdges(fn, "(0 != p0.ContentLength)")) > 0
+		bad := len(e.ifEdges(fn, "(p0.ContentLength > 0)"))+len(e.ifEdges(fn, "(0 < p0.ContentLength)")) > 0
+		r.Check(ok && !bad, "R13.15", "http.hasRequestBody: any non-zero ContentLength counts (-1 = unknown)", e.Pos(fn.Pos()),
+			"the body test no longer admits an unknown length (-1): streamed payloads over HTTP/2 and HTTP/3 are refused with 400", 1)
+	}
 }
